@@ -157,6 +157,7 @@ Definition pop : parser op :=
   | 72 => pret OpHelp                                                (* H *)
   | 77 => pret OpMan                                                 (* M *)
   | 65 => (a <~ pattach ;; pret (OpAttach a))                        (* A *)
+  | 66 => pret OpObserve                                             (* B *)
   | _ => (n <~ pN ;; pret (OpWriteIni n))                            (* W *)
   end.
 
